@@ -603,8 +603,10 @@ def cost_of(d):
 
 
 def kmedoids_job(N, k, entry='pam', sweeps=1, warm=None, proposals=False, tri=False, mode='n',
-                 props=('C01', 'C09')):
-    """entry: 'pam'      one _kmedoids_pam_update sweep from an arbitrary consistent state (inductive step)
+                 props=('C01', 'C09'), colliding_draws=0):
+    """colliding_draws: number of random ARRAY draws per path that may contain repeated values (default 0: a draw of several
+    indices is assumed duplicate-free, i.e. rejection loops are collapsed)
+    entry: 'pam'      one _kmedoids_pam_update sweep from an arbitrary consistent state (inductive step)
               'kmedoids' the public function (cold, or warm in {'centers','labels','all'})
               'hybrid'   kcenters + sweeps; 'KMedoids' / 'KHybrid' estimator forms."""
     kc, km, hy, cu, ops = mods()
@@ -615,6 +617,7 @@ def kmedoids_job(N, k, entry='pam', sweeps=1, warm=None, proposals=False, tri=Fa
         X0 = X.copy()
         rnd_log = loader_stubs().current_log()
         rs = loader_stubs().SymRandom()
+        ctx.memo[('rnd-collision-budget',)] = colliding_draws
         pre = None
         prp = None
         cutoff = None
@@ -802,25 +805,31 @@ def kmedoids_job(N, k, entry='pam', sweeps=1, warm=None, proposals=False, tri=Fa
                     outs = []
                     for gseed in (1, 2):
                         np.random.seed(gseed)
-                        with core.concrete_mode():
-                            if entry == 'kmedoids':
-                                kwa2 = dict(n_iters=sweeps)
-                                if warm in ('centers', 'all'):
-                                    kwa2['cluster_center_inds'] = list(snap[0])
-                                if warm == 'all-pairs':
-                                    Ls = [1, N - 1] if N >= 2 else [N]
-                                    kwa2['cluster_center_inds'] = [(0, int(f)) if int(f) < Ls[0] else (1, int(f) - Ls[0]) for f in snap[0]]
-                                    kwa2['X_lengths'] = list(Ls)
-                                if warm in ('labels', 'all', 'all-pairs'):
-                                    kwa2['assignments'] = snap[1].copy()
-                                    kwa2['distances'] = snap[2].copy()
-                                if not warm:
-                                    kwa2['n_clusters'] = k
-                                rr = km.kmedoids(np.arange(N), metric, random_state=1234, **kwa2)
-                            else:
-                                rr = hy.hybrid(np.arange(N), metric, n_iters=sweeps, random_state=1234, **kw2)
+                        try:
+                            with core.concrete_mode():
+                                if entry == 'kmedoids':
+                                    kwa2 = dict(n_iters=sweeps)
+                                    if warm in ('centers', 'all'):
+                                        kwa2['cluster_center_inds'] = list(snap[0])
+                                    if warm == 'all-pairs':
+                                        Ls = [1, N - 1] if N >= 2 else [N]
+                                        kwa2['cluster_center_inds'] = [(0, int(f)) if int(f) < Ls[0] else (1, int(f) - Ls[0]) for f in snap[0]]
+                                        kwa2['X_lengths'] = list(Ls)
+                                    if warm in ('labels', 'all', 'all-pairs'):
+                                        kwa2['assignments'] = snap[1].copy()
+                                        kwa2['distances'] = snap[2].copy()
+                                    if not warm:
+                                        kwa2['n_clusters'] = k
+                                    rr = km.kmedoids(np.arange(N), metric, random_state=1234, **kwa2)
+                                else:
+                                    rr = hy.hybrid(np.arange(N), metric, n_iters=sweeps, random_state=1234, **kw2)
+                        except Exception as e:
+                            # admissible input, fixed seed: the library itself fails (real NumPy generator)
+                            bad.append('raises %s with random_state=1234' % type(e).__name__)
+                            out['exception'] = repr(e)
+                            break
                         outs.append(_concrete_out(rr, sc))
-                    if outs[0] != outs[1]:
+                    if len(outs) == 2 and outs[0] != outs[1]:
                         bad.append('not-reproducible-with-fixed-seed')
             if not np.array_equal(Xc, np.arange(N)):
                 bad.append('input-data-modified')
